@@ -87,33 +87,36 @@ theorem addI_sumP (h : AddLaws R) (pb : Problem R) (l : List Nat) (a b : Img R) 
   | nil => simp
   | cons i l ih => simp only [List.foldl_cons]; rw [ih, addI_assoc h]
 
-theorem length_sumP (pb : Problem R) (npx : Nat) (hP : ∀ i, (pb.P i).length = npx) (l : List Nat)
+theorem length_sumP (pb : Problem R) (npx : Nat) (l : List Nat) (hP : ∀ i ∈ l, (pb.P i).length = npx)
     (p0 : Img R) (h0 : p0.length = npx) : (sumP pb l p0).length = npx := by
   unfold sumP
   induction l generalizing p0 with
   | nil => simpa using h0
   | cons i l ih =>
     simp only [List.foldl_cons]
-    exact ih _ (by simp [length_addI, h0, hP i])
+    exact ih (fun j hj => hP j (List.mem_cons_of_mem _ hj)) _
+      (by simp [length_addI, h0, hP i List.mem_cons_self])
 
 theorem batchPower_eq (pb : Problem R) (B : List Nat) :
     batchPower pb B = sumP pb B (zeros (pb.rows * pb.cols)) := rfl
 
 /-- the batched accumulation `power += pow` equals the pixel-by-pixel sum over the flattened schedule -/
-theorem power_flatten (h : AddLaws R) (pb : Problem R)
-    (hP : ∀ i, (pb.P i).length = pb.rows * pb.cols) (batches : List (List Nat)) (p0 : Img R)
+theorem power_flatten (h : AddLaws R) (pb : Problem R) (batches : List (List Nat))
+    (hP : ∀ i ∈ batches.flatten, (pb.P i).length = pb.rows * pb.cols) (p0 : Img R)
     (h0 : p0.length = pb.rows * pb.cols) :
     batches.foldl (fun p B => addI p (batchPower pb B)) p0 = sumP pb batches.flatten p0 := by
   induction batches generalizing p0 with
   | nil => simp [sumP]
   | cons B rest ih =>
     simp only [List.foldl_cons, List.flatten_cons]
+    simp only [List.flatten_cons, List.mem_append] at hP
     have e : addI p0 (batchPower pb B) = sumP pb B p0 := by
       rw [batchPower_eq, addI_sumP h]
       have := addI_zeros h p0
       rw [h0] at this
       rw [this]
-    rw [e, ih _ (length_sumP pb _ hP B p0 h0)]
+    rw [e, ih (fun i hi => hP i (Or.inr hi)) _
+      (length_sumP pb _ B (fun i hi => hP i (Or.inl hi)) p0 h0)]
     simp [sumP, List.foldl_append]
 
 /-- the accumulated power does not depend on the order of the pixels -/
